@@ -793,7 +793,9 @@ class SVG:
 
                 # stroke may introduce multiple paths
                 assert len(paths) == 1  # oh ye of little faith
-                if paths[0].stroke != "none":
+                # a zero width paints no stroke (Skia would draw a hairline, and
+                # outlining that gives back the shape itself)
+                if paths[0].stroke != "none" and paths[0].stroke_width > 0:
                     paths = list(self._stroke(paths[0]))
 
                 # Any remaining stroke attributes don't do anything
